@@ -66,6 +66,7 @@ struct shared {
   volatile int cur_target[MAXDEV];
   volatile long maxpoints;
   volatile long viol;
+  volatile int capped;
   volatile uint64_t outcome_hash[64];
   volatile int noutcomes;
 };
@@ -103,6 +104,78 @@ void sched_point(void) {
     }
   }
   inhook = 0;
+}
+
+/* ---- blocking primitives the code under test may use (pthread_once, call_once, pthread mutexes) -------------------------
+ * A cooperative scheduler must know when a thread cannot continue: a thread that would block on a primitive held by
+ * another managed thread hands the turn to the holder instead of really blocking (which would stall the whole execution,
+ * because the holder is suspended).  Linked with -Wl,--wrap=...; unmanaged callers (self < 0) use the real functions. */
+#define MAXSYNC 64
+struct syncobj {
+  void *addr;
+  int state; /* once: 0 new, 1 running, 2 done;  mutex: 0 free, 1 held */
+  int owner;
+};
+static struct syncobj syncs[MAXSYNC];
+static int nsync;
+static struct syncobj *sync_of(void *addr) {
+  for (int i = 0; i < nsync; i++)
+    if (syncs[i].addr == addr) return &syncs[i];
+  if (nsync == MAXSYNC) return &syncs[MAXSYNC - 1];
+  syncs[nsync].addr = addr;
+  syncs[nsync].state = 0;
+  syncs[nsync].owner = -1;
+  return &syncs[nsync++];
+}
+static void yield_to(int owner) {
+  int was = inhook;
+  inhook = 1;
+  hand_to(owner);
+  wait_turn();
+  inhook = was;
+}
+
+int __real_pthread_once(pthread_once_t *, void (*)(void));
+int __wrap_pthread_once(pthread_once_t *once, void (*init)(void)) {
+  if (self < 0) return __real_pthread_once(once, init);
+  sched_point();
+  struct syncobj *o = sync_of(once);
+  while (o->state == 1 && o->owner != self) yield_to(o->owner);
+  if (o->state == 2) return 0;
+  o->state = 1;
+  o->owner = self;
+  init();
+  o->state = 2;
+  sched_point();
+  return 0;
+}
+#include <threads.h>
+void __real_call_once(once_flag *, void (*)(void));
+void __wrap_call_once(once_flag *flag, void (*init)(void)) {
+  if (self < 0) {
+    __real_call_once(flag, init);
+    return;
+  }
+  __wrap_pthread_once((pthread_once_t *)flag, init);
+}
+int __real_pthread_mutex_lock(pthread_mutex_t *);
+int __real_pthread_mutex_unlock(pthread_mutex_t *);
+int __wrap_pthread_mutex_lock(pthread_mutex_t *m) {
+  if (self < 0) return __real_pthread_mutex_lock(m);
+  sched_point();
+  struct syncobj *o = sync_of(m);
+  while (o->state == 1 && o->owner != self) yield_to(o->owner);
+  o->state = 1;
+  o->owner = self;
+  return 0;
+}
+int __wrap_pthread_mutex_unlock(pthread_mutex_t *m) {
+  if (self < 0) return __real_pthread_mutex_unlock(m);
+  struct syncobj *o = sync_of(m);
+  o->state = 0;
+  o->owner = -1;
+  sched_point();
+  return 0;
 }
 
 /* table access shim: see build (wrapper translation units) */
@@ -169,7 +242,20 @@ static long run_schedule(void) {
     _exit(0);
   }
   int st = 0;
-  while (waitpid(c, &st, 0) < 0 && errno == EINTR) {}
+  /* watchdog: an execution that does not finish within 20 s is a hang (deadlock / livelock) of that schedule */
+  for (int waited = 0;; waited++) {
+    pid_t r = waitpid(c, &st, WNOHANG);
+    if (r == c) break;
+    if (r < 0 && errno != EINTR) break;
+    if (waited > 20000) {
+      kill(c, SIGKILL);
+      waitpid(c, &st, 0);
+      st = 0x7f00 | SIGALRM; /* reported as a death by signal 14 */
+      last_status = SIGALRM;
+      return -1;
+    }
+    usleep(waited < 50 ? 20 : 1000);
+  }
   last_status = st;
   if (!(WIFEXITED(st) && WEXITSTATUS(st) == 0)) return -1;
   memcpy(tr_thread, ex->thr, MAXP);
@@ -211,6 +297,9 @@ static void check(void) {
 }
 
 static long shard, nshards;
+#include <time.h>
+static time_t t_end; /* exploration budget: when it is used up the search stops and reports CAPPED (never a verdict) */
+static int capped;
 
 static void explore(int depth) {
   /* publish the schedule, run it, check it */
@@ -243,6 +332,11 @@ static void explore(int depth) {
   long from = ndev ? dev_point[ndev - 1] + 1 : 0;
   for (long i = from; i < np; i++) {
     if (depth == 0 && (i % nshards) != shard) continue;
+    if (t_end && time(NULL) > t_end) {
+      capped = 1;
+      sh->capped = 1;
+      break;
+    }
     for (int t = 0; t < nthreads; t++) {
       if (t == thr[i] || (fin[i] >> t) & 1) continue;
       dev_point[ndev] = i;
@@ -283,6 +377,7 @@ int main(int argc, char **argv) {
     nshards = 1;
   }
   setvbuf(stdout, NULL, _IOLBF, 0);
+  if (getenv("SCHED_BUDGET") && atoi(getenv("SCHED_BUDGET")) > 0) t_end = time(NULL) + atoi(getenv("SCHED_BUDGET"));
   if (!getenv("SCHED_KEEP_STDERR")) {
     int dn = open("/dev/null", 1);
     if (dn >= 0) dup2(dn, 2);
@@ -329,7 +424,7 @@ int main(int argc, char **argv) {
     printf("] | worker died: %s %d\n", WIFSIGNALED(st) ? "signal" : "exit", WIFSIGNALED(st) ? WTERMSIG(st) : WEXITSTATUS(st));
     sh->viol++;
   }
-  printf("DONE schedules=%ld points=%ld maxpreempt=%d outcomes=%d violations=%ld\n", sh->schedules, sh->maxpoints, kmax,
-         sh->noutcomes, sh->viol);
+  printf("DONE schedules=%ld points=%ld maxpreempt=%d outcomes=%d violations=%ld capped=%d\n", sh->schedules, sh->maxpoints, kmax,
+         sh->noutcomes, sh->viol, sh->capped);
   return 0;
 }
